@@ -25,6 +25,17 @@ class Gate:
         self.pending.append(fut)
         await fut
 
+    def release_at(self, i):
+        """several pauses can be pending at once (when the code lets them overlap): any of them may elapse first"""
+        live = [f for f in self.pending if not f.done()]
+        if i < len(live):
+            fut = live[i]
+            self.pending.remove(fut)
+            fut.set_result(None)
+            self.released += 1
+            return True
+        return False
+
     def release_one(self):
         while self.pending:
             fut = self.pending.pop(0)
